@@ -13,6 +13,7 @@ use std::time::{Duration, Instant};
 
 pub struct Tier {
     pub name: &'static str,
+    pub soak_runs: usize,
     pub runs: usize,
     pub batch: usize,
     pub workers: usize,
@@ -29,6 +30,7 @@ pub fn tier(name: &str) -> Tier {
     match name {
         "thorough" => Tier {
             name: "thorough",
+            soak_runs: env_usize("VERIF_SOAK_RUNS", 320),
             runs: env_usize("VERIF_RUNS", 1_000_000),
             batch: 600,
             workers: cores,
@@ -38,6 +40,7 @@ pub fn tier(name: &str) -> Tier {
         },
         _ => Tier {
             name: "quick",
+            soak_runs: env_usize("VERIF_SOAK_RUNS", 48),
             runs: env_usize("VERIF_RUNS", 100_000),
             batch: 400,
             workers: cores,
@@ -106,6 +109,8 @@ pub struct Agg {
     pub debug_fmts: u64,
     pub recompiles: u64,
     pub stalled: u64,
+    pub thread_exits_joined: u64,
+    pub late_starts: u64,
     pub cold_runs: u64,
     pub cold_init_by_thread: BTreeMap<i64, u64>,
     pub ext_blocked: u64,
@@ -166,6 +171,8 @@ impl Agg {
         self.debug_fmts += r.debug_fmts;
         self.recompiles += r.recompiles;
         self.stalled += r.stalled;
+        self.thread_exits_joined += r.thread_exits_joined;
+        self.late_starts += r.late_starts;
         if r.cold {
             self.cold_runs += 1;
             *self.cold_init_by_thread.entry(r.cold_init_thread).or_insert(0) += 1;
@@ -487,6 +494,72 @@ pub fn check(tier_name: &str, base_seed: u64) -> Outcome {
         }
     );
 
+    // ---- soak stage: long histories on few objects (call counters across 2^8 / 2^16)
+    let s0 = Instant::now();
+    let mut ex = ex;
+    let mut soak_violating: Vec<(Job, RunRecord)> = Vec::new();
+    let mut soak_runs_done = 0u64;
+    let mut soak_calls = 0u64;
+    {
+        let jobs: Vec<Job> = (0..t.soak_runs)
+            .map(|i| Job {
+                seed: mix(base_seed, 0x50A4_0000 + i as u64),
+                flavor: "s".into(),
+                ..Default::default()
+            })
+            .collect();
+        let queue = Arc::new(Mutex::new(jobs));
+        let results: Arc<Mutex<Vec<(Job, Option<RunRecord>, Option<String>)>>> =
+            Arc::new(Mutex::new(Vec::new()));
+        let mut hs = Vec::new();
+        for _ in 0..t.workers {
+            let queue = queue.clone();
+            let results = results.clone();
+            let sock = lanes.all();
+            hs.push(std::thread::spawn(move || loop {
+                let job = match queue.lock().unwrap().pop() {
+                    Some(j) => j,
+                    None => break,
+                };
+                let res = run_batch(&sock, std::slice::from_ref(&job), Duration::from_secs(120));
+                let rec = res.records.into_iter().next().flatten();
+                results.lock().unwrap().push((job, rec, res.note));
+            }));
+        }
+        for h in hs {
+            let _ = h.join();
+        }
+        let mut results = std::mem::take(&mut *results.lock().unwrap());
+        results.sort_by_key(|(j, _, _)| j.seed);
+        for (job, rec, note) in results {
+            match rec {
+                Some(r) => {
+                    soak_runs_done += 1;
+                    soak_calls += r.soak_calls;
+                    ex.agg.add(usize::MAX, 0, &r);
+                    if !r.violations.is_empty() {
+                        soak_violating.push((job, r));
+                    }
+                }
+                None => ex.agg.inconclusive.push(format!(
+                    "soak seed={}: worker died or stalled ({})",
+                    job.seed,
+                    note.unwrap_or_default()
+                )),
+            }
+        }
+    }
+    // soak records were added to the aggregate with a pseudo batch id: take them out of the
+    // batch-indexed list (they are handled through soak_violating)
+    ex.agg.violating.retain(|(k, _, _)| *k != usize::MAX);
+    let ex = ex;
+    println!(
+        "soak stage: {} runs, {} calls on long-lived objects, {:.1}s",
+        soak_runs_done,
+        soak_calls,
+        s0.elapsed().as_secs_f64()
+    );
+
     // ---- determinism self-check: re-execute whole batches in other worker processes,
     // on other reference lanes, and (second pass) with another worker count
     let mut harness_errors: Vec<String> = ex.agg.harness_errors.clone();
@@ -640,6 +713,34 @@ pub fn check(tier_name: &str, base_seed: u64) -> Outcome {
             }
         }
     }
+    for (job, rec) in &soak_violating {
+        if violations_reported >= max_report {
+            break;
+        }
+        let v0 = &rec.violations[0];
+        if let Some(kf) = known.iter().find(|kf| kf.matches(v0)) {
+            if seen_signatures.insert(format!("known:{}", kf.id)) {
+                println!("KNOWN-FINDING: property=C18 {}", kf.text);
+                known_printed += 1;
+            }
+            continue;
+        }
+        println!(
+            "violation candidate: soak seed={} class={} {}",
+            rec.seed, v0.class, v0.request
+        );
+        match minimise::minimise_and_write(&lanes.all(), &[], job, rec, false) {
+            Some(path) => {
+                println!("VIOLATION property=C18 replay={}", path);
+                replay_paths.push(path);
+                violations_reported += 1;
+            }
+            None => unconfirmed.push(format!(
+                "soak seed={} class={} {}: did not reproduce 3/3 from its replay file",
+                rec.seed, v0.class, v0.request
+            )),
+        }
+    }
     // violations found by the Miri stage (run by ./check before this binary in the thorough tier)
     let miri = crate::miri_stage::last_summary();
     if let Some(vs) = miri["violations"].as_array() {
@@ -756,6 +857,8 @@ pub fn check(tier_name: &str, base_seed: u64) -> Outcome {
                 "F7_cold_init_by_thread": a.cold_init_by_thread,
                 "F8_calls_on_object_compiled_by_other_thread": a.migrations,
                 "F9_stalled_caller": a.stalled,
+                "F10_caller_thread_exits_joined_before_token_moves_on": a.thread_exits_joined,
+                "F10_late_starter_after_another_thread_exited": a.late_starts,
             },
             "harness_probes": {
                 "calls_overlapping_on_same_object": a.same_obj_overlap,
@@ -786,6 +889,11 @@ pub fn check(tier_name: &str, base_seed: u64) -> Outcome {
                 "examples": a.path_impure_examples,
             },
             "runs_on_long_lived_caller_threads": a.pooled_runs,
+            "soak_stage": {
+                "what": "single-thread runs on 4 objects each: probe call A, then d-1 identical calls B, then A again, d in {255,256,257,4096,32768,65534..65537}; every call compared with the reference",
+                "runs": soak_runs_done,
+                "calls": soak_calls,
+            },
             "inconclusive": a.inconclusive,
             "unconfirmed_candidates": unconfirmed,
             "known_findings_printed": known_printed,
